@@ -16,6 +16,7 @@ Proof.
   unfold telegram_hosts. cbn [In].
   intros [<-|[<-|[<-|[<-|[<-|[]]]]]]; (split; [vm_compute; reflexivity|discriminate]).
 Qed.
+Print Assumptions hostname_telegram.
 
 (* every Telegram host, https/http/no scheme, optional absence of port: one-segment path -> username *)
 Theorem C20i_username_on_every_host : forall lower ord sc h s,
